@@ -181,3 +181,30 @@ type ShMid1 struct {
 	W string
 	ShDeep
 }
+
+// Outer members that encoding/json ignores (unexported, json:"-") and that carry the names of
+// promoted members: they must not hide them.
+type HidInner struct {
+	X int `json:"x"`
+	Y int `json:"Skip"`
+	Z int
+	w int
+}
+type EmbHidVal struct {
+	x    string
+	Skip string `json:"-"`
+	Z    bool   `json:"-"`
+	HidInner
+	V int
+}
+type EmbHidPtr struct {
+	x    int
+	Skip []int `json:"-"`
+	*HidInner
+	V int
+}
+type EmbHidDeep struct {
+	x int
+	EmbHidVal
+	W int
+}
